@@ -351,6 +351,7 @@ type ReadSpec struct {
 	OrderFirst     bool   `json:"order_first,omitempty"`
 	MaxMsgs        int    `json:"max_msgs,omitempty"`
 	AgainAfterErr  int    `json:"again_after_err,omitempty"` // see LexSpec.AgainAfterErr
+	InfoFirst      bool   `json:"info_first,omitempty"`      // the consumer asks the Reader for Info() before Messages()
 }
 
 // IterResult is what a message read returned.
@@ -573,7 +574,12 @@ func ReadMessages(src io.Reader, spec ReadSpec) *IterResult {
 		return nil
 	}
 	var it mcap.MessageIterator
-	pi = Guard(func() { it, res.MsgsErr = rd.Messages(spec.opts(cb)...) })
+	pi = Guard(func() {
+		if spec.InfoFirst {
+			_, _ = rd.Info() // an error (non-seekable source) is not the point here
+		}
+		it, res.MsgsErr = rd.Messages(spec.opts(cb)...)
+	})
 	if pi != nil {
 		res.Panic = pi
 		return res
